@@ -124,6 +124,11 @@ pub enum Role {
     /// recorded in `unconfirmed` and ends the dialogue), pause `read_delay_ms` before each message
     /// and before the close; finally half-close and close
     Hold,
+    /// a peer that has nothing more to say and reads LATE: write `send`, half-close at once, do not read
+    /// for `read_delay_ms`, then read to end-of-stream (`pace_ms` > 0: at most 32 KiB per read and a pause of
+    /// `pace_ms` after every read), close.  With `Script::rcvbuf` the socket's receive buffer is made small
+    /// first, so that what the other end has written is still in ITS send buffer when it closes.
+    Late { pace_ms: u64 },
 }
 
 #[derive(Clone, Debug)]
@@ -136,6 +141,27 @@ pub struct Script {
     pub read_delay_ms: u64,
     /// `Hold` and its peer (`Normal`, which then reports every read through it)
     pub gate: Option<std::sync::Arc<Gate>>,
+    /// SO_RCVBUF to set on this end's TCP socket before anything else happens (applied by whoever owns the
+    /// concrete socket: the target's accept loop, `run_conn` for the local client)
+    pub rcvbuf: Option<u32>,
+}
+
+/// SO_RCVBUF on a connected socket (Linux doubles the value; the window already advertised is not taken
+/// back).  `false` = could not be set (the scenario then runs with the default buffer).
+#[cfg(all(target_os = "linux", any(target_arch = "x86_64", target_arch = "aarch64")))]
+pub fn set_rcvbuf<S: std::os::fd::AsRawFd>(s: &S, bytes: u32) -> bool {
+    unsafe extern "C" {
+        fn setsockopt(fd: i32, level: i32, name: i32, value: *const core::ffi::c_void, len: u32) -> i32;
+    }
+    const SOL_SOCKET: i32 = 1;
+    const SO_RCVBUF: i32 = 8;
+    let v: i32 = bytes.min(i32::MAX as u32) as i32;
+    // SAFETY: `fd` is an open socket for the duration of the call, `value` points to 4 readable bytes
+    unsafe { setsockopt(s.as_raw_fd(), SOL_SOCKET, SO_RCVBUF, (&raw const v).cast(), 4) == 0 }
+}
+#[cfg(not(all(target_os = "linux", any(target_arch = "x86_64", target_arch = "aarch64"))))]
+pub fn set_rcvbuf<S>(_s: &S, _bytes: u32) -> bool {
+    false
 }
 
 /// A message of `Role::Hold` that the peer did not have within `prompt()` although the connection
@@ -201,7 +227,12 @@ async fn write_chunks<W: AsyncWrite + Unpin>(w: &mut W, data: &[u8], chunk: &Chu
 
 /// Read to end-of-stream; with a gate, report the running total after every read and the end of reading.
 async fn read_to_eof<R: AsyncRead + Unpin>(r: &mut R, obs: &mut SideObs, t0: Instant, gate: Option<&Gate>) {
-    let mut buf = vec![0u8; 64 * 1024];
+    read_to_eof_paced(r, obs, t0, gate, 0).await;
+}
+
+/// `pace_ms` > 0: a slow reader (at most 32 KiB per read, a pause after every read).
+async fn read_to_eof_paced<R: AsyncRead + Unpin>(r: &mut R, obs: &mut SideObs, t0: Instant, gate: Option<&Gate>, pace_ms: u64) {
+    let mut buf = vec![0u8; if pace_ms > 0 { 32 * 1024 } else { 64 * 1024 }];
     loop {
         match tokio::time::timeout(step(), r.read(&mut buf)).await {
             Err(_) => {
@@ -222,6 +253,9 @@ async fn read_to_eof<R: AsyncRead + Unpin>(r: &mut R, obs: &mut SideObs, t0: Ins
                 obs.received.extend_from_slice(&buf[..n]);
                 if let Some(g) = gate {
                     g.report(obs.received.len(), false);
+                }
+                if pace_ms > 0 {
+                    tokio::time::sleep(Duration::from_millis(pace_ms)).await;
                 }
             }
         }
@@ -424,6 +458,31 @@ pub async fn run_side(stream: BoxStream, sc: &Script) -> SideObs {
             }
             obs.closed_at = Some(Instant::now());
             obs.shutdown_ok = matches!(tokio::time::timeout(step(), w.shutdown()).await, Ok(Ok(())));
+        }
+        Role::Late { pace_ms } => {
+            let (mut r, mut w) = tokio::io::split(stream);
+            let mut sent = 0;
+            match write_chunks(&mut w, &sc.send, &sc.chunk, &mut sent).await {
+                Ok(()) => {}
+                Err(e) if e.starts_with("HANG") => obs.hang = Some(e),
+                Err(e) => obs.write_err = Some(e),
+            }
+            obs.sent = sent;
+            // nothing more to say: half-close at once, long before the first read
+            obs.closed_at = Some(Instant::now());
+            obs.shutdown_ok = matches!(tokio::time::timeout(step(), w.shutdown()).await, Ok(Ok(())));
+            if sc.read_delay_ms > 0 {
+                tokio::time::sleep(Duration::from_millis(sc.read_delay_ms)).await;
+            }
+            let mut robs = SideObs::default();
+            read_to_eof_paced(&mut r, &mut robs, t0, None, *pace_ms).await;
+            obs.received = robs.received;
+            obs.saw_eof = robs.saw_eof;
+            obs.eof_at = robs.eof_at;
+            obs.eof_ms = robs.eof_ms;
+            obs.read_err = robs.read_err;
+            obs.hang = obs.hang.or(robs.hang);
+            drop(w);
         }
     }
     obs
